@@ -47,6 +47,8 @@ class Scalar (R : Type) extends Add R, Sub R, Mul R, Div R, Neg R where
   toF32 : R → R
   isFinite : R → Bool
   pi : R
+  /-- Rust `a.mul_add(b, c)`: fused in binary64, `a * b + c` in the exact readings -/
+  mulAdd : R → R → R → R
 
 namespace Scalar
 variable {R : Type} [Scalar R]
@@ -69,8 +71,6 @@ def toDegrees (x : R) : R := x * ((ofNatLit 180 : R) / pi)
 /-- Rust `f64::max` (NaN-ignoring) -/
 def max (a b : R) : R := if isNaN a then b else if isNaN b then a else if lt a b then b else a
 def min (a b : R) : R := if isNaN a then b else if isNaN b then a else if lt b a then b else a
-/-- Rust `f64::mul_add`, modelled unfused -/
-def mulAdd (a b c : R) : R := a * b + c
 def recip (a : R) : R := ofNatLit 1 / a
 def sq (a : R) : R := a * a
 
@@ -136,8 +136,21 @@ def toUsize (x : Float) : Nat :=
   else if x ≤ 0.0 then 0
   else x.toUInt64.toNat
 
-def hypot (x y : Float) : Float :=
-  if x.isInf || y.isInf then Float.ofBits 0x7FF0000000000000 else Float.sqrt (x * x + y * y)
+/-! The C library functions that Lean's `Float` does not offer but Rust's `f64` calls.  They are
+bound for the executable reading only (the driver is compiled and linked against libm, as the
+implementation is); no theorem mentions them. -/
+@[extern "hypot"] opaque hypot : Float → Float → Float
+@[extern "log1p"] opaque log1p : Float → Float
+@[extern "fma"] opaque fma : Float → Float → Float → Float
+
+/-- Rust's `f64::asinh` (std, not libm): `(|x| + |x| / (hypot(1, 1/|x|) + 1/|x|)).ln_1p().copysign(x)` -/
+def asinh (x : Float) : Float :=
+  let ax := x.abs
+  let ix := 1.0 / ax
+  copysign (log1p (ax + ax / (hypot 1.0 ix + ix))) x
+
+/-- Rust's `f64::atanh` (std, not libm): `0.5 * ((2 x) / (1 - x)).ln_1p()` -/
+def atanh (x : Float) : Float := 0.5 * log1p ((2.0 * x) / (1.0 - x))
 
 end FloatImpl
 
@@ -152,8 +165,8 @@ instance : Scalar Float where
   sinh := Float.sinh
   cosh := Float.cosh
   tanh := Float.tanh
-  asinh := Float.asinh
-  atanh := Float.atanh
+  asinh := FloatImpl.asinh
+  atanh := FloatImpl.atanh
   exp := Float.exp
   ln := Float.log
   floor := Float.floor
@@ -176,5 +189,6 @@ instance : Scalar Float where
   toF32 := fun x => x.toFloat32.toFloat
   isFinite := Float.isFinite
   pi := Float.ofBits 0x400921FB54442D18
+  mulAdd := FloatImpl.fma
 
 end Geodesy
